@@ -314,6 +314,43 @@ pub fn suite_names(ctx: &Ctx, thorough: bool) {
     ctx.sample(json!("NuGeT"));
 }
 
+// a minimal serializer that accepts only a string value, with a configurable `is_human_readable` (binary formats report false)
+mod recser {
+    use serde::ser::{self, Impossible, Serialize};
+    #[derive(Debug)]
+    pub struct NotAString(pub String);
+    impl std::fmt::Display for NotAString { fn fmt(&self, f: &mut std::fmt::Formatter<'_>) -> std::fmt::Result { write!(f, "{}", self.0) } }
+    impl std::error::Error for NotAString {}
+    impl ser::Error for NotAString { fn custom<T: std::fmt::Display>(m: T) -> Self { NotAString(m.to_string()) } }
+    pub struct Rec { pub human: bool }
+    macro_rules! refuse { ($($m:ident($t:ty)),*) => { $( fn $m(self, _v: $t) -> Result<String, NotAString> { Err(NotAString(stringify!($m).into())) } )* } }
+    impl ser::Serializer for Rec {
+        type Ok = String; type Error = NotAString;
+        type SerializeSeq = Impossible<String, NotAString>; type SerializeTuple = Impossible<String, NotAString>;
+        type SerializeTupleStruct = Impossible<String, NotAString>; type SerializeTupleVariant = Impossible<String, NotAString>;
+        type SerializeMap = Impossible<String, NotAString>; type SerializeStruct = Impossible<String, NotAString>;
+        type SerializeStructVariant = Impossible<String, NotAString>;
+        fn is_human_readable(&self) -> bool { self.human }
+        fn serialize_str(self, v: &str) -> Result<String, NotAString> { Ok(v.to_owned()) }
+        refuse!(serialize_bool(bool), serialize_i8(i8), serialize_i16(i16), serialize_i32(i32), serialize_i64(i64), serialize_u8(u8), serialize_u16(u16),
+                serialize_u32(u32), serialize_u64(u64), serialize_f32(f32), serialize_f64(f64), serialize_char(char), serialize_bytes(&[u8]));
+        fn serialize_none(self) -> Result<String, NotAString> { Err(NotAString("none".into())) }
+        fn serialize_some<T: ?Sized + Serialize>(self, _v: &T) -> Result<String, NotAString> { Err(NotAString("some".into())) }
+        fn serialize_unit(self) -> Result<String, NotAString> { Err(NotAString("unit".into())) }
+        fn serialize_unit_struct(self, _n: &'static str) -> Result<String, NotAString> { Err(NotAString("unit_struct".into())) }
+        fn serialize_unit_variant(self, _n: &'static str, _i: u32, _v: &'static str) -> Result<String, NotAString> { Err(NotAString("unit_variant".into())) }
+        fn serialize_newtype_struct<T: ?Sized + Serialize>(self, _n: &'static str, _v: &T) -> Result<String, NotAString> { Err(NotAString("newtype_struct".into())) }
+        fn serialize_newtype_variant<T: ?Sized + Serialize>(self, _n: &'static str, _i: u32, _v: &'static str, _x: &T) -> Result<String, NotAString> { Err(NotAString("newtype_variant".into())) }
+        fn serialize_seq(self, _l: Option<usize>) -> Result<Self::SerializeSeq, NotAString> { Err(NotAString("seq".into())) }
+        fn serialize_tuple(self, _l: usize) -> Result<Self::SerializeTuple, NotAString> { Err(NotAString("tuple".into())) }
+        fn serialize_tuple_struct(self, _n: &'static str, _l: usize) -> Result<Self::SerializeTupleStruct, NotAString> { Err(NotAString("tuple_struct".into())) }
+        fn serialize_tuple_variant(self, _n: &'static str, _i: u32, _v: &'static str, _l: usize) -> Result<Self::SerializeTupleVariant, NotAString> { Err(NotAString("tuple_variant".into())) }
+        fn serialize_map(self, _l: Option<usize>) -> Result<Self::SerializeMap, NotAString> { Err(NotAString("map".into())) }
+        fn serialize_struct(self, _n: &'static str, _l: usize) -> Result<Self::SerializeStruct, NotAString> { Err(NotAString("struct".into())) }
+        fn serialize_struct_variant(self, _n: &'static str, _i: u32, _v: &'static str, _l: usize) -> Result<Self::SerializeStructVariant, NotAString> { Err(NotAString("struct_variant".into())) }
+    }
+}
+
 /// C16: serde form is the string form
 pub fn suite_serde(ctx: &Ctx, thorough: bool) {
     let n = if thorough { 4 } else { 3 };
@@ -345,6 +382,21 @@ fn serde_one(ctx: &Ctx, s: &str) {
         let ser = serde_json::to_value(a).ok();
         if ser != Some(serde_json::Value::String(a.to_string())) {
             ctx.violate("C16.serialize", "serialising produces exactly the canonical string as one string value", json!(s), format!("{ser:?}"), a.to_string());
+        }
+        // every serializer -- human-readable or not -- receives exactly one string value
+        for human in [true, false] {
+            use serde::Serialize;
+            match a.serialize(recser::Rec { human }) {
+                Ok(t) if t == a.to_string() => {},
+                other => ctx.violate("C16.serialize", "serialising produces exactly the canonical string as one string value (any serializer)", json!({"string": s, "is_human_readable": human}), format!("{other:?}"), a.to_string()),
+            }
+            // and a deserializer handing over a plain string, human-readable or not
+            use serde::de::IntoDeserializer;
+            let d: serde::de::value::StrDeserializer<serde::de::value::Error> = s.into_deserializer();
+            let r: Result<GenericPurl<String>, _> = serde::Deserialize::deserialize(d);
+            if r.as_ref().ok() != Some(a) {
+                ctx.violate("C16.deserialize", "deserialising the string yields the parsed PURL (any deserializer)", json!(s), format!("{:?}", r.map(|p| Obs::of(&p))), format!("{:?}", Obs::of(a)));
+            }
         }
         let back: Option<GenericPurl<String>> = serde_json::to_string(a).ok().and_then(|t| serde_json::from_str(&t).ok());
         if back.as_ref() != Some(a) {
